@@ -762,6 +762,22 @@ def betweenG (s : Sym) (t : String) (l r : G) : G :=
   | G.inf .and_ mt lo hi => G.tern s t .and_ mt l lo hi
   | _ => G.inf s t l r
 
+/-- `visit_truediv_binary`: SQLite `l / (r + 0.0)`, dialects whose `/` is integer division
+    `l / CAST(r AS NUMERIC)`, otherwise `l / r` -/
+def truedivG (d : Dialect) (L R : G) : G :=
+  if d = .sqlite then
+    G.inf .slash " / " L (G.br .paren (G.inf .plus " + " R (G.atom ⟨"0.0", .num "0.0"⟩)))
+  else if divIsFloordiv d then
+    G.inf .slash " / " L
+      (G.br .cast (G.inf .as_ " AS " R (opaqueG ((castName d .num).getD "NUMERIC"))))
+  else G.inf .slash " / " L R
+
+/-- `visit_floordiv_binary`: `l / r` when `/` is integer division and both sides are Integer,
+    else `FLOOR(l / r)` -/
+def floordivG (d : Dialect) (lt rt : Ty) (L R : G) : G :=
+  if divIsFloordiv d ∧ rt = .int ∧ lt = .int then G.inf .slash " / " L R
+  else G.br (.fn "FLOOR") (G.inf .slash " / " L R)
+
 mutual
 /-- `element._compiler_dispatch(compiler, literal_binds=lb)` -/
 def render (d : Dialect) (lb : Bool) : SaExpr → G
@@ -772,19 +788,8 @@ def render (d : Dialect) (lb : Bool) : SaExpr → G
   | .false_ => G.atom ⟨falseText d, .false_⟩
   | .binary op l r _ esc _ =>
     match op with
-    | .truediv =>
-      if d = .sqlite then
-        G.inf .slash " / " (render d lb l)
-          (G.br .paren (G.inf .plus " + " (render d lb r) (G.atom ⟨"0.0", .num "0.0"⟩)))
-      else if divIsFloordiv d then
-        G.inf .slash " / " (render d lb l)
-          (G.br .cast (G.inf .as_ " AS " (render d lb r)
-            (opaqueG ((castName d .num).getD "NUMERIC"))))
-      else G.inf .slash " / " (render d lb l) (render d lb r)
-    | .floordiv =>
-      if divIsFloordiv d ∧ tyOf r = .int ∧ tyOf l = .int then
-        G.inf .slash " / " (render d lb l) (render d lb r)
-      else G.br (.fn "FLOOR") (G.inf .slash " / " (render d lb l) (render d lb r))
+    | .truediv => truedivG d (render d lb l) (render d lb r)
+    | .floordiv => floordivG d (tyOf l) (tyOf r) (render d lb l) (render d lb r)
     | .mod =>
       G.inf .percent (if doublePercents d then " %% " else " % ") (render d lb l) (render d lb r)
     | .concat_op =>
